@@ -58,9 +58,10 @@ func OpenPackage(L *LState) int {
 	L.SetField(packagemod, "loaders", loaders)
 	L.SetField(L.Get(RegistryIndex), "_LOADERS", loaders)
 
-	loaded := L.NewTable()
+	// reuse the _LOADED table RegisterModule has just stored the package module in (luaL_findtable in
+	// luaopen_package), so that package.loaded.package is set and modules registered earlier are kept
+	loaded := L.FindTable(L.Get(RegistryIndex).(*LTable), "_LOADED", 1)
 	L.SetField(packagemod, "loaded", loaded)
-	L.SetField(L.Get(RegistryIndex), "_LOADED", loaded)
 
 	L.SetField(packagemod, "path", LString(loGetPath(LuaPath, LuaPathDefault)))
 	L.SetField(packagemod, "cpath", emptyLString)
